@@ -361,7 +361,7 @@ example : canonicalOrder [⟨2, 2⟩, ⟨2, 0⟩, ⟨2, 1⟩] = [1, 2, 0] := by 
 example : canonicalOrder [⟨1, 7⟩, ⟨1, 5⟩, ⟨2, 1⟩] = [1, 0, 2] := by decide
 example : minTag [⟨1, 5⟩, ⟨2, 0⟩] = some ⟨1, 5⟩ := by decide
 
-/-- F110 witness: `INTEGER (0..MAX)`, value 128: X.691 §10.7 → `01 80` (asn1c: `02 00 80`) -/
+/-- F110 witness: `INTEGER (0..MAX)`, value 128: X.691 §10.7 → `01 80` (asn1c wrote `02 00 80` before the repair of F110) -/
 theorem ref_F110_witness : encUPERbytes (.integer ⟨some 0, none, false⟩) (.int 128) = some [0x01, 0x80] := by
   simp only [encUPERbytes, encUPER]; decide +kernel
 /-- F111 witness: `GeneralizedTime` "19700101000000Z" is a VisibleString: 7 bits per character -/
